@@ -3,7 +3,7 @@ import random
 from han import hdlc, dlde
 from props import spec_py as sp
 from props.hdlc_rt import replay_read_next, replay_read, ALPHA
-from props.dlde_rt import replay_p1_read, gen_readouts
+from props.dlde_rt import replay_p1_read, gen_readouts, p1_resync_check, replay_clean_p1, p1_ideal_check, clean_stream_check
 
 def mk_frame(rnd, flagfree=False, n_info=None):
     dst = bytes([rnd.randrange(0, 128) * 2 for _ in range(rnd.randrange(0, 3))] + [rnd.randrange(0, 128) * 2 + 1]); src = bytes([rnd.randrange(0, 128) * 2 + 1])
@@ -73,3 +73,8 @@ def gen_ok_readouts(rnd, k):
         lines = [rnd.choice([b"1-0:1.8.0(00006678.394*kWh)", b"0-0:1.0.0(210217184019W)", b"1-0:32.7.0(240.3*V)"]) for _ in range(rnd.randrange(0, 5))]
         body = ident + eol + eol + b"".join(l + eol for l in lines) + b"!"
         yield body + (b"%04X" % sp.crc16_arc(body)) + eol
+
+def replay_clean_stream(p):
+    from props.c02_rt import replay_clean_stream as f; return f(p)
+def replay_ideal(p):
+    from props.c06_rt import replay_ideal as f; return f(p)
